@@ -1,7 +1,7 @@
 #!/bin/bash
 # (re)compile the C11 Coq files in dependency order; with "tables" also the generated tie
 d="$(dirname "$0")"
-for f in Ms/RobustModel.v Proofs/RobustProofs.v Proofs/RobustLexProofs.v Proofs/RobustTreeProofs.v Proofs/RobustPostProofs.v Properties/C11.v; do
+for f in Ms/RobustModel.v Proofs/RobustProofs.v Proofs/RobustLexProofs.v Proofs/RobustTreeProofs.v Proofs/RobustPostProofs.v Proofs/RobustDepthProofs.v Properties/C11.v; do
   [ -f "$d/../coq/$f" ] || continue
   out="$("$d/c11_coqc.sh" "$f")"
   if echo "$out" | grep -q "Error"; then echo "== $f"; echo "$out"; exit 1; fi
